@@ -159,8 +159,18 @@ pub fn matrix_case(i: usize, seed: u64, sp: &Space) -> Config {
             }
         }
         2 => {
-            if let Some(m) = mutators.first().copied() {
-                mutators.push(m);
+            // a mutator registered twice (any of them, anywhere in the list)
+            if !mutators.is_empty() {
+                let m = mutators[rng.below(mutators.len() as u64) as usize];
+                let at = rng.below(mutators.len() as u64 + 1) as usize;
+                mutators.insert(at, m);
+            }
+        }
+        3 => {
+            // the whole list twice
+            let copy = mutators.clone();
+            if rng.below(2) == 0 {
+                mutators.extend(copy);
             }
         }
         _ => {}
@@ -188,6 +198,13 @@ pub fn matrix_case(i: usize, seed: u64, sp: &Space) -> Config {
         raw_rate: false,
         // a quarter of the cases run on a generator that already produced another pickle
         warmup: if rng.below(4) == 0 { Some(rng.next() >> 8) } else { None },
+        order: rng.below(3) as u8,
+        bufsize: match rng.below(12) {
+            0 => Some(256),
+            1 => Some(1024),
+            2 => Some(1 << 20),
+            _ => None,
+        },
         unsafe_mut,
         ext,
         buf,
